@@ -94,7 +94,7 @@ SITES = {
     'proof::multi_proof::verify|call:index|[$1 - 1]|#1': ('reviewed', 'under `if i > 0`, i < len'),
     'proof::multi_proof::verify_range|assert:BoundsCheck|$1[0]|#1': ('reviewed', 'inside `if paths.len() == 1`'),
     'proof::multi_proof::verify_range|assert:Overflow:Sub|$1 - $2|#1': ('guarded', 'MalformedProof', 'sub'),
-    'proof::multi_proof::verify_range|call:index|[$1..$2]|#1': ('guarded', 'MalformedProof', 'end'),
+    'proof::multi_proof::verify_range|call:index|[$1..$2]|#1': ('guarded', 'MalformedProof', 'range'),
     'proof::multi_proof::verify_range|call:index|[..$1]|#1': ('guarded', 'MalformedProof', 'end'),
     'proof::multi_proof::verify_range|assert:Overflow:Add|$1 + $2|#1': ('reviewed', 'sibling offsets are bounded by the number of siblings held in memory (a Vec length), far below usize::MAX'),
     'proof::multi_proof::verify_range|assert:BoundsCheck|$1[0]|#2': ('reviewed', 'paths is non-empty here: the empty range returned above'),
